@@ -74,5 +74,5 @@ register_meta('C04', level='other', explanation='the stack / round-number arithm
               assumptions=['which tokens the text_number_regex yields for a spelling, and that the extractor reports the spelling as one entity, are not under contract',
                            'layouts: groups c / cc / cH / cHc / cHcc / cHac / cHacc (c cardinal word, H hundred word, a the separator "and") and their ordinal endings; one to four round words strictly decreasing left to right with groups c or cHacc',
                            'table facts required by the contracts (the separator word is in no table and resolves to 0; cardinal words are neither ordinal nor round words) are preconditions; they are checked against the real English configuration by the closed obligation tables/english-number-words, not for other cultures',
-                           'BOUNDED (not proved): spelling/english and spelling/chinese enumerate n < 2000 (quick) / 10000 (thorough), powers of ten, 10^k +/- 1 and seeded samples; Spanish, French, Portuguese, German, Italian, Dutch and Japanese spellings are not generated',
+                           'BOUNDED (not proved): spelling/english and spelling/chinese enumerate n < 2000 (quick) / 10000 (thorough), powers of ten, 10^k +/- 1 and seeded samples; German compound cardinals only below one million; Spanish, French, Portuguese, Italian, Dutch and Japanese spellings are not generated',
                            'Decimal(tmp_val) of an integer is that integer (15-digit context: exact below 10^15)'])
